@@ -163,7 +163,9 @@ def showLookup : Lookup → String
   psch ks e|u|s:rf|n:dc=rf,…         → the environment: what getKeyspaceMetadata(ks) answers from now on
   prepl ks t…                        → replicas Pick starts from (spec-backed: Spec.lookup on the current environment)
   xprepl ks t…                       → the same read from the stored snapshot, with its source (r = replica map, o = owner)
-  ppick ks t…                        → hosts the real Pick offers (ordered partitioner only) -/
+  ppick ks t…                        → hosts the real Pick offers (ordered partitioner only; every host up and local, the
+                                       fallback policy offers nothing): model = the stored snapshot's replica list
+  spick ks t…                        → the same on a fresh keyspace, spec-backed: answered with Spec.lookup -/
 def step (s : Cl) (ws : List String) : Cl × String :=
   match ws with
   | "reset" :: _ :: hs =>
@@ -242,6 +244,16 @@ def step (s : Cl) (ws : List String) : Cl × String :=
     | some k, some ts =>
       (s, if s.pol.part = .ordered then
             " ".intercalate (ts.map (fun t => match polLookup s.pol k t with
+              | .noring => "[]"
+              | r => showLookup r))
+          else "n/a")
+    | _, _ => (s, "bad-op")
+  | "spick" :: k :: ts =>
+    -- the real Pick on a fresh keyspace (spec-backed): the hosts offered = Spec.lookup on the current environment
+    match k.toNat?, ts.mapM String.toInt? with
+    | some k, some ts =>
+      (s, if s.pol.part = .ordered then
+            " ".intercalate (ts.map (fun t => match PlacementPol.Spec.lookup s.pol k t with
               | .noring => "[]"
               | r => showLookup r))
           else "n/a")
